@@ -17,6 +17,11 @@ Fixpoint picks {X} (pre : list X) (l : list X) : list (X * list X) :=
 Definition minimal (e : hev) (rest : list hev) : bool :=
   forallb (fun e' => negb (h_ret e' <? h_inv e)) rest.
 
+(* existsb, but the rest of the list is looked at only when needed (the evaluation of case files is call by value:
+   a || b and a && b written as functions would evaluate both sides, i.e. explore every order) *)
+Fixpoint lazy_exists {X} (f : X -> bool) (l : list X) : bool :=
+  match l with [] => false | x :: r => if f x then true else lazy_exists f r end.
+
 Section Lin.
   Context {S : Type}.
   Variable sem : S -> cop -> S * cres.
@@ -27,10 +32,11 @@ Section Lin.
     | Datatypes.S f =>
       match pending with
       | [] => true
-      | _ => existsb (fun p => let '(e, rest) := p in
-                               minimal e rest &&
-                               (let '(s', r) := sem s (h_op e) in cres_eqb r (h_res e) && lin f s' rest))
-                     (picks [] pending)
+      | _ => lazy_exists (fun p => let '(e, rest) := p in
+                                   if minimal e rest
+                                   then (let '(s', r) := sem s (h_op e) in if cres_eqb r (h_res e) then lin f s' rest else false)
+                                   else false)
+                         (picks [] pending)
       end
     end.
 
